@@ -55,6 +55,12 @@ CHECKS = {
                      "symbolic continuation of n+2 inputs on the reset instance and on a fresh one: outputs pairwise equal, period()/multiplier() unchanged (z3 over the MIR, exact reals); plus Kani harnesses "
                      "with histories of EVERY f64 bit pattern (NaN, +-inf, extremes), reset, then a fixed finite continuation bit-equal to a fresh instance, n<=2 (3). Violations replayed natively.",
                 technique="symbolic execution of rustc MIR into z3 + Kani/CBMC harnesses for non-finite histories; native replay", design='4/C04'),
+    'C08': dict(text="Bounded model checking by solver: for all 22 indicators, n<=3 (4): symbolic positive prefix (<= n+1) then a flat stretch of n+2 inputs at a symbolic level (bars o=h=l=c, symbolic volume; "
+                     "also zero-volume stretches for MFI/OBV): z3 decides over the MIR (exact reals) which steps have a zero denominator (-> NaN) and that the neutral values are exact (FastStochastic 50, "
+                     "CCI/ROC/TrueRange/MAD/SD 0, bands collapsed, SMA/WMA/Min/Max = level); Kani decides bit-precisely that FastStochastic/TrueRange/Min/Max are exactly neutral for every finite "
+                     "prefix and every finite level in [1e-300,1e300] and that ROC is exactly 0 on a flat stream for levels symbolic over a seeded 96-value table. Known findings (ER, MFI, RSI(1) NaN; CCI residue) "
+                     "are listed in known_findings.json and re-confirmed natively on every run.",
+                technique="symbolic execution of rustc MIR into z3 (zero-denominator feasibility, exact neutral values) + Kani/CBMC harnesses; native replay", design='4/C08'),
 }
 NA = {
     'C19': "decided by rustc's type checker once and for all; there is no input, state or schedule for an SMT/SAT solver to quantify over",
